@@ -13,7 +13,9 @@ EXPLANATION = (
     "wrapper whose emit/id/channel fields originate in emit_event()/the id parameter/the storage's channel, and whose DerefMut::deref_mut "
     "satisfies R1 for Modified on the wrapper's own fields. R3: every single_write in these bodies is unreachable once the true-edge of "
     "the emission predicate is deleted (config F makes the predicate a real field). R4: the purge path MaskedStorage::drop -> "
-    "UnprotectedStorage::drop reaches remove (default body) and no tracked impl overrides drop. R5: nothing reachable over the call graph "
+    "UnprotectedStorage::drop reaches remove (default body) and no tracked impl overrides drop; nothing reachable from the entity purge uses clean(); the silent bulk "
+    "primitives (MaskedStorage::clear, non-delegating clean) are called only from a `clear` method, a Drop impl or a wrapper's delegating clean "
+    "(the one door the property exempts by name); an overwriting insert goes through get_mut().access_mut() on every path. R5: nothing reachable over the call graph "
     "from the shared-reference API of Storage, the join impls of &Storage / &RestrictedStorage or the read items calls get_mut, "
     "shared_get_mut or single_write."
 )
